@@ -202,7 +202,7 @@ def alternates(name, h, settings):
     if name in HEXISH and not is_wrapper(name):
         up, lo = h.upper(), h.lower()
         # only the hex digest part may change case: derive by swapping case of hex letters after the last separator
-        for sep in ("$", ":", "}", None):
+        for sep in ("$", ":", "}", "*", None):  # ('*' leads a mysql41 hash)
             if sep is None:
                 head, tail = "", h
             elif sep in h:
